@@ -124,7 +124,11 @@ type Exec struct {
 	StateHash           func() uint64 // optional extra state for the digest
 	Digests             map[uint64]struct{}
 	TrackDigests        bool
-	watch               atomic.Int64 // last progress (unix nano) for the foreign-blocking watchdog
+	// OnTimerFire, when set, is called (all threads parked) when an AfterFunc timer fires, with the name of the
+	// thread that will run the timer's function.
+	OnTimerFire func(thread string)
+	timerFires  int
+	watch       atomic.Int64 // last progress (unix nano) for the foreign-blocking watchdog
 	Stalled             bool
 }
 
@@ -554,8 +558,11 @@ func (e *Exec) loop() {
 			}
 			switch {
 			case tm.fn != nil:
-				nt := e.spawn("afterfunc", tm.fn)
-				_ = nt
+				e.timerFires++
+				nt := e.spawn(fmt.Sprintf("afterfunc#%d", e.timerFires), tm.fn)
+				if e.OnTimerFire != nil {
+					e.OnTimerFire(nt.name)
+				}
 			case tm.sleeper != nil:
 				tm.sleeper.p = pend{kind: opContinue, desc: "woke"}
 			case tm.ch != nil:
@@ -683,4 +690,30 @@ func (e *Exec) Outcome() string {
 		return "ok"
 	}
 	return strings.Join(parts, ";")
+}
+
+// ThreadInfo describes one thread of the execution for harness monitors (call only while all threads are
+// parked, e.g. from Exec.Invariant).
+type ThreadInfo struct {
+	ID      int
+	Name    string
+	Pending string
+	Done    bool
+}
+
+// Threads lists the threads in creation order.
+func (e *Exec) Threads() []ThreadInfo {
+	out := make([]ThreadInfo, 0, len(e.threads))
+	for _, t := range e.threads {
+		out = append(out, ThreadInfo{ID: t.id, Name: t.name, Pending: t.p.desc, Done: t.done})
+	}
+	return out
+}
+
+// LastRun is the name of the thread that ran last (the one whose step led to the current scheduling point).
+func (e *Exec) LastRun() string {
+	if e.cur == nil {
+		return ""
+	}
+	return e.cur.name
 }
